@@ -425,6 +425,44 @@ def zipReplace (a1 a2 : Arr) (it : ArrIter) (x y : Nat) (m : Mem) :
   let r2 := a2.replaceAt y (wdec it.index) r1.2.2.2
   (.ok, some (r1.2.1.getD 0, r2.2.1.getD 0), r1.2.2.1, r2.2.2.1, r2.2.2.2)
 
+/-! ## zip iterator with the *same* array on both sides (`iter->ar1 == iter->ar2`)
+
+Nothing in the library forbids `cc_array_zip_iter_init(&it, a, a)`.  Both halves of every call then act
+on one object, so the model threads ONE array state through the two inner calls, in the order of the C
+text.  (`zip_iter_next` only reads: `zipNext a a`.)  Consequences mirrored here: `zip_iter_remove` removes
+two consecutive elements — or one, when the first removal made the index the end, and then `*out2` is
+left as the caller had it (`untouched`); `zip_iter_add` makes room once, then the second `add_at` grows
+again on its own when the first used the last free slot, its status ignored: a refusal there leaves
+one element inserted and `CC_OK` reported. -/
+
+/-- `cc_array_zip_iter_remove`, `ar1 == ar2` -/
+def zipRemove1 (a : Arr) (it : ArrIter) (untouched : Nat) (m : Mem) : Stat × Option (Nat × Nat) × Arr × ArrIter × Mem :=
+  if wdec it.index ≥ a.size || wdec it.index ≥ a.size then (.errOutOfRange, none, a, it, m) else
+  if !it.lastRemoved then
+    let r1 := a.removeAt (wdec it.index) m
+    let r2 := r1.2.2.1.removeAt (wdec it.index) r1.2.2.2
+    (.ok, some (r1.2.1.getD 0, r2.2.1.getD untouched), r2.2.2.1,
+     { index := it.index - 1, lastRemoved := true }, r2.2.2.2)
+  else (.errValueNotFound, none, a, it, m)
+
+/-- `cc_array_zip_iter_add`, `ar1 == ar2` -/
+def zipAdd1 (a : Arr) (it : ArrIter) (x y : Nat) (m : Mem) : Stat × Arr × ArrIter × Mem :=
+  let index := it.index
+  let e1 := if a.size = a.capacity then a.expandCapacity m else (.ok, a, m)
+  if e1.1 != .ok then (.errAlloc, e1.2.1, it, e1.2.2) else
+  let e2 := if e1.2.1.size = e1.2.1.capacity then e1.2.1.expandCapacity e1.2.2 else (.ok, e1.2.1, e1.2.2)
+  if e2.1 != .ok then (.errAlloc, e2.2.1, it, e2.2.2) else
+  let r1 := e2.2.1.addAt x index e2.2.2
+  let r2 := r1.2.1.addAt y index r1.2.2
+  (.ok, r2.2.1, { it with index := it.index + 1 }, r2.2.2)
+
+/-- `cc_array_zip_iter_replace`, `ar1 == ar2`: the second replacement overwrites the first -/
+def zipReplace1 (a : Arr) (it : ArrIter) (x y : Nat) (m : Mem) : Stat × Option (Nat × Nat) × Arr × Mem :=
+  if wdec it.index ≥ a.size || wdec it.index ≥ a.size then (.errOutOfRange, none, a, m) else
+  let r1 := a.replaceAt x (wdec it.index) m
+  let r2 := r1.2.2.1.replaceAt y (wdec it.index) r1.2.2.2
+  (.ok, some (r1.2.1.getD 0, r2.2.1.getD 0), r2.2.2.1, r2.2.2.2)
+
 /-! ## zip-iterator programs -/
 
 open Spec.Seq (ZipOp ZOut) in
